@@ -21,7 +21,7 @@ PROPS_PRE = {
 }
 
 PROPS = dict(PROPS_PRE)
-for _pid, _scn in [('C16','C16'),('C13','C13'),('C19','C19'),('C17','C17'),('C18','C18'),('C04','C04'),('C09','C09'),('C08','C08'),('C14','C14'),('C05','C05'),('C06','C06'),('C07','C07'),('C10','C10'),('C11','C11'),('C12','C12'),('C15','C15')]:
+for _pid, _scn in [('C03','C03'),('C16','C16'),('C13','C13'),('C19','C19'),('C17','C17'),('C18','C18'),('C04','C04'),('C09','C09'),('C08','C08'),('C14','C14'),('C05','C05'),('C06','C06'),('C07','C07'),('C10','C10'),('C11','C11'),('C12','C12'),('C15','C15')]:
     PROPS[_pid] = dict(level='exploration', rule=NONTRIVIAL, assumptions=COMMON_ASSUMPTIONS,
                        legs=legs(_scn, 6000, 60, 400000, 1500), reports=[_pid])
 
@@ -34,6 +34,9 @@ add_leg('C18', 'D_deadline_rearm', 1500, 30, 60000, 300)
 add_leg('C15', 'C15b', 4000, 60, 200000, 900)
 add_leg('C17', 'C17w', 3000, 60, 200000, 900)
 add_leg('C13', 'C13e', 3000, 60, 200000, 900)
+PROPS['C03']['legs']['quick'].append(dict(scenario='C03', runs=1600, budget=60, tag='sweep', params={'c03_sweep': 1}))
+PROPS['C03']['legs']['thorough'].append(dict(scenario='C03', runs=64000, budget=900, tag='sweep', params={'c03_sweep': 1}))
+add_leg('C11', 'C11h', 320, 60, 20000, 1500)
 add_leg('C16', 'C16r', 4000, 60, 300000, 1200)
 add_leg('C16', 'D_seq_shift', 1, 10, 1, 10)
 add_leg('C16', 'C16w', 48, 120, 4000, 1800)
@@ -76,7 +79,7 @@ MANIFEST_TEXT.update({
                 note=SIM_NOTE),
     'C11': dict(design_ref='DESIGN.md §5 C11',
                 technique='deterministic simulation: white-box byte counters vs bytes reachable at every step, a_rwnd of every emitted SACK vs buffer minus counters, end-state zero',
-                text='Seeded exploration with duplicates, reordering, abandoned fragments, slow readers, small buffers; counters are compared with the bytes actually reachable after every scheduling step, each emitted a_rwnd with buffer minus counters at gather time, and after a drained run nothing may be held. One recorded known finding (KF3). The hostile-sender bounds are exercised by C03. Evidence, not proof.',
+                text='Seeded exploration with duplicates, reordering, abandoned fragments, slow readers, small buffers; counters are compared with the bytes actually reachable after every scheduling step, each emitted a_rwnd with buffer minus counters at gather time, and after a drained run nothing may be held. One recorded known finding (KF3). A second leg (C11h) replaces the peer by an adversary that pours DATA / I-DATA into the endpoint without looking at the window (never-ending messages on several streams, holes, TSNs around and beyond the window edge, application not reading): nothing may be kept beyond the tracking window, with a zero advertised window only hole-filling chunks below the highest TSN received may be kept, and the bytes held stay below buffer + one chunk + hole fillers. Evidence, not proof.',
                 note=SIM_NOTE),
     'C12': dict(design_ref='DESIGN.md §5 C12',
                 technique='deterministic simulation: every emitted packet decoded by an independent decoder, differentially against the repository decoder, re-encoded for stability',
@@ -139,6 +142,13 @@ MANIFEST_TEXT.update({
                 note=SIM_NOTE + ' Twin runs use the deterministic run-to-completion schedule and a shift-invariant base order for 32-bit map keys, so that both runs consume their decision tapes identically. The helper enumeration is not a simulation (pure function); it rides along in the same check.'),
 })
 
+MANIFEST_TEXT.update({
+    'C03': dict(design_ref='DESIGN.md §5 C03',
+                technique='deterministic simulation: an adversary task injects forged, malformed, mutated and replayed packets into a live pair at seeded instants (handshake, transfer with data in flight, stream resets, shutdown); generator-side classification inert / effective; panic, lock-cycle and loop-iteration bounds on every scheduling step; end-to-end transfer oracle for inert-only runs',
+                text='Seeded exploration: 1-50 packets per run from 40 generator classes (random bytes, truncated / replayed / field-mutated real packets, bad lengths with a valid checksum, acknowledgements of data never sent, impossible gap blocks incl. blocks that start inside the in-flight range, forward-TSNs behind and up to 2^31 ahead, duplicate / far / fresh / zero-length / wrong-kind DATA, arbitrary RECONFIG, handshake and shutdown chunks in every state, unknown chunk types with all action codes, ERROR / ABORT, port 0, bad checksum) are injected while the pair transfers data over a lossy network. Every run: no panic in any task, no lock cycle, at most 4 million loop iterations between two scheduling points (instrumented loops: bounded work per packet, decided deterministically), every emitted packet well formed, in-flight / reassembly / received-TSN counters consistent after every step. Runs with only inert packets must complete the transfer exactly (each accepted message once, in order, nothing left buffered) unless the endpoint answered ABORT; a chunk of the kind that was not negotiated must be answered with ABORT (C17). A second leg sweeps generator class x situation cells evenly. Evidence, not proof.',
+                note=SIM_NOTE + ' The wire monitors of the other properties are not attached in these runs (the adversary forges their ground truth); the twin-run comparison planned in the design was replaced by the end-to-end oracle because an inert packet may legitimately change timing and hence the delivery order of unordered streams.'),
+})
+
 # properties whose check is not built yet (kept current as the work proceeds)
 NOT_BUILT = {pid: 'check not built yet in this session (work in progress, see DESIGN.md §10)' for pid in
-             ['C03','C20']}
+             ['C20']}
